@@ -505,3 +505,107 @@ Definition size_ok (k : nat) (progs : list (list op)) : bool :=
   forallb (fun o => Nat.leb (onum o) (Nat.pow 2 k)) (all_ops progs).
 Definition usage_ok (k : nat) (progs : list (list op)) : bool :=
   excl_ok true progs && excl_ok false progs && wake_ok true progs && wake_ok false progs && size_ok k progs.
+
+(* ---- public entry points ----
+   Every public overload only forwards: value / pointer / iterator overloads to the callback overload of the same name, the
+   overloads without template arguments to the ones with <true, true, true> (<true, true> for try_), and the callback
+   overloads hand <USE_FUTEX_WAIT, USE_FUTEX_WAKE, PUSH_OR_POP> to deal / deal_n_continuously resp.
+   <CONCURRENT, USE_FUTEX_WAKE, PUSH_OR_POP> to try_deal / try_deal_n_continuously.  Each forwarded template-argument list
+   is regenerated from the source as an integer code (Gen.fw_*: a * 4 + b * 2 + c for three arguments, a * 2 + b for two),
+   so a call written by the client through entry point e with flags f runs the core operation with the flags the
+   wrappers really pass on (`lower`).  try_push(value) / try_push(callback) without template arguments cannot be
+   instantiated (they name try_push<true, true, true>) and are no entry points here. *)
+Inductive entry := EnCb | EnVal | EnPtr | EnIt | EnDefCb | EnDefVal | EnDefPtr | EnDefIt.
+Record call := { c_entry : entry; c_op : op }.
+
+Definition bz (b : bool) : Z := if b then 1 else 0.
+Definition f3 (z : Z) : flags := {| conc := Z.testbit z 2; fwait := Z.testbit z 1; fwake := Z.testbit z 0 |}.
+Definition f2 (z : Z) (f : flags) : flags := {| conc := Z.testbit z 1; fwait := fwait f; fwake := Z.testbit z 0 |}.
+Definition via3 (g : Z -> Z -> Z -> Z) (f : flags) : flags := f3 (g (bz (conc f)) (bz (fwait f)) (bz (fwake f))).
+Definition via2 (g : Z -> Z -> Z) (f : flags) : flags := f2 (g (bz (conc f)) (bz (fwake f))) f.
+(* callback overload -> deal / deal_n_continuously <WAIT, WAKE, PUSH_OR_POP> *)
+Definition core_wk (g : Z -> Z -> Z) (f : flags) : flags :=
+  let z := g (bz (fwait f)) (bz (fwake f)) in {| conc := conc f; fwait := Z.testbit z 2; fwake := Z.testbit z 1 |}.
+(* callback overload -> try_deal / try_deal_n_continuously <CONCURRENT, WAKE, PUSH_OR_POP> *)
+Definition core_ck (g : Z -> Z -> Z) (f : flags) : flags :=
+  let z := g (bz (conc f)) (bz (fwake f)) in {| conc := Z.testbit z 2; fwait := fwait f; fwake := Z.testbit z 1 |}.
+(* try_pop_n_exclusively_until<WAKE> -> try_pop_n<false, WAKE>: the client's CONCURRENT is meaningless and kept *)
+Definition until_flags (f : flags) : flags :=
+  let z := fw_until_core (bz (fwake f)) in {| conc := conc f; fwait := fwait f; fwake := Z.testbit z 0 |}.
+
+Definition lower_flags (o : op) (e : entry) : option flags :=
+  let f := oflags o in
+  match o, e with
+  | OPush _ _, EnCb => Some (core_wk fw_push_core f)
+  | OPush _ _, EnVal => Some (core_wk fw_push_core (via3 fw_push_value f))
+  | OPush _ _, EnDefCb => Some (core_wk fw_push_core (f3 fw_push_default_cb))
+  | OPush _ _, EnDefVal => Some (core_wk fw_push_core (via3 fw_push_value (f3 fw_push_default_value)))
+  | OPop _, EnCb => Some (core_wk fw_pop_core f)
+  | OPop _, EnVal => Some (core_wk fw_pop_core (via3 fw_pop_ref f))
+  | OPop _, EnPtr => Some (core_wk fw_pop_core (via3 fw_pop_ref (via3 fw_pop_ptr f)))
+  | OPop _, EnDefCb => Some (core_wk fw_pop_core (f3 fw_pop_default_cb))
+  | OPop _, EnDefVal => Some (core_wk fw_pop_core (via3 fw_pop_ref (f3 fw_pop_default_ref)))
+  | OPop _, EnDefPtr => Some (core_wk fw_pop_core (via3 fw_pop_ref (via3 fw_pop_ptr (f3 fw_pop_default_ptr))))
+  | OTryPush _ _, EnCb => Some (core_ck fw_try_push_core f)
+  | OTryPush _ _, EnVal => Some (core_ck fw_try_push_core (via2 fw_try_push_value f))
+  | OTryPop _, EnCb => Some (core_ck fw_try_pop_core f)
+  | OTryPop _, EnVal => Some (core_ck fw_try_pop_core (via2 fw_try_pop_ref f))
+  | OTryPop _, EnDefCb => Some (core_ck fw_try_pop_core (f2 fw_try_pop_default_cb f))
+  | OTryPop _, EnDefVal => Some (core_ck fw_try_pop_core (via2 fw_try_pop_ref (f2 fw_try_pop_default_ref f)))
+  | OPushN _ _, EnCb => Some (core_wk fw_push_n_core_whole f)
+  | OPushN _ _, EnIt => Some (core_wk fw_push_n_core_whole (via3 fw_push_n_it f))
+  | OPushN _ _, EnDefCb => Some (core_wk fw_push_n_core_whole (f3 fw_push_n_default_cb))
+  | OPushN _ _, EnDefIt => Some (core_wk fw_push_n_core_whole (via3 fw_push_n_it (f3 fw_push_n_default_it)))
+  | OPopN _ _, EnCb => Some (core_wk fw_pop_n_core_whole f)
+  | OPopN _ _, EnIt => Some (core_wk fw_pop_n_core_whole (via3 fw_pop_n_it f))
+  | OPopN _ _, EnDefCb => Some (core_wk fw_pop_n_core_whole (f3 fw_pop_n_default_cb))
+  | OPopN _ _, EnDefIt => Some (core_wk fw_pop_n_core_whole (via3 fw_pop_n_it (f3 fw_pop_n_default_it)))
+  | OTryPushN _ _, EnCb => Some (core_ck fw_try_push_n_core_whole f)
+  | OTryPopN _ _, EnCb => Some (core_ck fw_try_pop_n_core_whole f)
+  | OPopUntil _ _ _, EnCb => Some (core_ck fw_try_pop_n_core_whole (until_flags f))
+  | _, _ => None
+  end.
+Definition with_flags (o : op) (f : flags) : op :=
+  match o with
+  | OPush _ v => OPush f v | OPop _ => OPop f | OTryPush _ v => OTryPush f v | OTryPop _ => OTryPop f
+  | OPushN _ vs => OPushN f vs | OPopN _ n => OPopN f n | OTryPushN _ vs => OTryPushN f vs | OTryPopN _ n => OTryPopN f n
+  | OPopUntil _ n t => OPopUntil f n t
+  end.
+(* the core operation a client call really runs *)
+Definition lower (c : call) : op :=
+  match lower_flags (c_op c) (c_entry c) with Some f => with_flags (c_op c) f | None => c_op c end.
+Definition lower_progs (cp : list (list call)) : list (list op) := map (map lower) cp.
+Definition declared (cp : list (list call)) : list (list op) := map (map c_op) cp.
+
+Definition eqf (a b : flags) : bool := Bool.eqb (conc a) (conc b) && Bool.eqb (fwait a) (fwait b) && Bool.eqb (fwake a) (fwake b).
+Definition fdefault : flags := {| conc := true; fwait := true; fwake := true |}.
+(* the overload exists, and the overloads without template arguments are "written" with their documented defaults *)
+Definition entry_ok (c : call) : bool :=
+  match lower_flags (c_op c) (c_entry c) with
+  | None => false
+  | Some _ =>
+    match c_entry c with
+    | EnDefCb | EnDefVal | EnDefPtr | EnDefIt =>
+      match okind (c_op c) with
+      | KTry => conc (oflags (c_op c)) && fwake (oflags (c_op c))
+      | _ => eqf (oflags (c_op c)) fdefault
+      end
+    | _ => true
+    end
+  end.
+Definition calls_ok (cp : list (list call)) : bool := forallb (forallb entry_ok) cp.
+
+(* the three deal_n_continuously / try_deal_n_continuously calls of a batch overload pass the same list, every core passes
+   PUSH_OR_POP = true on the push side and false on the pop side, the timed pop names try_pop_n<false, ...> *)
+Definition all2 (p : Z -> Z -> bool) : bool := p 0 0 && p 0 1 && p 1 0 && p 1 1.
+Definition same2 (g h : Z -> Z -> Z) : bool := all2 (fun a b => Z.eqb (g a b) (h a b)).
+Definition role2 (g : Z -> Z -> Z) (push : bool) : bool := all2 (fun a b => Bool.eqb (Z.testbit (g a b) 0) push).
+Definition cores_ok : bool :=
+  role2 fw_push_core true && role2 fw_pop_core false && role2 fw_try_push_core true && role2 fw_try_pop_core false &&
+  role2 fw_push_n_core_whole true && same2 fw_push_n_core_whole fw_push_n_core_first && same2 fw_push_n_core_whole fw_push_n_core_second &&
+  role2 fw_pop_n_core_whole false && same2 fw_pop_n_core_whole fw_pop_n_core_first && same2 fw_pop_n_core_whole fw_pop_n_core_second &&
+  role2 fw_try_push_n_core_whole true && same2 fw_try_push_n_core_whole fw_try_push_n_core_first &&
+  same2 fw_try_push_n_core_whole fw_try_push_n_core_second &&
+  role2 fw_try_pop_n_core_whole false && same2 fw_try_pop_n_core_whole fw_try_pop_n_core_first &&
+  same2 fw_try_pop_n_core_whole fw_try_pop_n_core_second &&
+  negb (Z.testbit (fw_until_core 0) 1) && negb (Z.testbit (fw_until_core 1) 1).
